@@ -82,6 +82,7 @@ static HashEntry *get_or_insert_entry(HashMap *map, char *key, int keylen) {
   }
 
   uint64_t hash = fnv_hash(key, keylen);
+  HashEntry *tombstone = NULL;
 
   for (int i = 0; i < map->capacity; i++) {
     HashEntry *ent = &map->buckets[(hash + i) % map->capacity];
@@ -89,18 +90,32 @@ static HashEntry *get_or_insert_entry(HashMap *map, char *key, int keylen) {
     if (match(ent, key, keylen))
       return ent;
 
+    // A tombstone can be reused, but only after we know that the key
+    // is not stored further down the probe sequence.
     if (ent->key == TOMBSTONE) {
-      ent->key = key;
-      ent->keylen = keylen;
-      return ent;
+      if (!tombstone)
+        tombstone = ent;
+      continue;
     }
 
     if (ent->key == NULL) {
+      if (tombstone) {
+        tombstone->key = key;
+        tombstone->keylen = keylen;
+        return tombstone;
+      }
+
       ent->key = key;
       ent->keylen = keylen;
       map->used++;
       return ent;
     }
+  }
+
+  if (tombstone) {
+    tombstone->key = key;
+    tombstone->keylen = keylen;
+    return tombstone;
   }
   unreachable();
 }
